@@ -41,6 +41,7 @@ EXTRA_OBLIGATIONS = []
 
 EXPS = [(1, 1), (1, 1), (1, 1), (2, 1), (-1, 1), (3, 1), (1, 2), (-3, 2), (-2, 1), (2, 3)]
 SCALARS = [0.0, 1.0, -1.0, math.pi, -math.pi, 1e30, 1e-30, 2.5, -123456.789, 6.02e23, 1e-9]
+FLOAT_EXC = ("ZeroDivisionError", "OverflowError", "FloatingPointError")
 ARRAYS = [[0.0, 1.0, -2.5], [1e-3, math.pi, 1e30], [5e-324, -1.0, 7.0, 1e-30]]
 
 
@@ -279,7 +280,10 @@ def judge(ctx, cat, case, imp, res, report=True):
     m_ok = "ok" in mv
     i_ok = imp["value"] != "err"
     det = None
-    if m_ok != i_ok:
+    float_exc = (not numeric_ok) and (imp.get("value_exc") in FLOAT_EXC or imp.get("to_exc") in FLOAT_EXC)
+    if float_exc:
+        ctx.count("unjudged.float-exception")   # e.g. 1/(x*f) with x*f underflowing to 0
+    elif m_ok != i_ok:
         det = "value(): impl %s, model %s" % ("ok" if i_ok else "raises " + imp.get("value_exc", ""), mv)
     elif m_ok and numeric_ok and not U.close(imp["value"], U.mag_back(mv["ok"]), rtol):
         det = "value(): impl %r, model %r" % (imp["value"], U.mag_back(mv["ok"]))
@@ -296,7 +300,9 @@ def judge(ctx, cat, case, imp, res, report=True):
     if det:
         found.append(("disagreement", case["stream"], det))
     # ---------- impl vs spec (in-domain only)
-    u_nodim_nonempty = bool(case["iu"]) and all(d == 0 for d in cat.dims_of_items(case["iu"]))
+    # a dimensionless compound (m/km) that Quantity.__init__ folded completely into a bare number
+    u_nodim_nonempty = bool(case["iu"]) and all(d == 0 for d in cat.dims_of_items(case["iu"])) and \
+        res["init"]["units"] == [] and imp["units0"] == []
     if kind == "refuse":
         single_rad = len(case["iv"]) == 1 and case["iv"][0][1] == "rad"
         if u_nodim_nonempty and single_rad:
@@ -312,6 +318,8 @@ def judge(ctx, cat, case, imp, res, report=True):
     else:
         if kind == "reciprocal" and any(v == 0 for v in xs):
             ctx.count("unjudged.reciprocal-of-zero")
+        elif float_exc:
+            pass
         elif not i_ok or not imp["to"]:
             found.append(("violation", "%s:refused" % kind,
                           "%s conversion %s -> %s of %r is refused (%s)" %
